@@ -154,11 +154,14 @@ def subset(from_table: {str: int}, name: str, parents: [int] = None) -> {}:
     result = {}
     if parents:
         for parent in parents:
+            # the name has to match exactly; only the version may vary
             surname = construct(name, parent)
+            versioned = surname + '___version:'
             result.update(
                 dict(
                     filter(
-                        lambda t, sn=surname: t[0].startswith(sn),
+                        lambda t, sn=surname, vn=versioned: t[0] == sn
+                        or t[0].startswith(vn),
                         from_table.items(),
                     )
                 )
